@@ -5,7 +5,10 @@ R = os.path.dirname(os.path.dirname(os.path.abspath(__file__)))
 props = [json.loads(l) for l in open(os.path.join(R, "properties.jsonl"))]
 import glob
 checks = {}
+enabled = set(open(os.path.join(R, "engines.enabled")).read().split())
 for p in sorted(glob.glob(os.path.join(R, "sim", "engines", "*", "checks.json"))):
+    if os.path.basename(os.path.dirname(p)) not in enabled:
+        continue  # engine not integrated yet (its hooks are not in /repo)
     for k, v in json.load(open(p)).items():
         v.setdefault("engine", os.path.basename(os.path.dirname(p)))
         checks[k] = v
